@@ -1,12 +1,12 @@
-SPECIFICATION LiveSpec
+SPECIFICATION Spec
 CONSTANTS
   Start = 1
   Last = 4
   MaxFails = 3
   Retries = 2
   Content <- MC_Content
-  AdvanceOnGiveUp = FALSE
+  AdvanceOnGiveUp = TRUE
   FutureAsEmpty = FALSE
 INVARIANTS NoSkip AllGenuineEmitted NeverAheadOfDA
-PROPERTIES RetrySame CursorStepsByOne AdvanceOnlyAfterOk EventuallyAll
+PROPERTIES AdvanceOnlyAfterOk
 CHECK_DEADLOCK FALSE
